@@ -113,7 +113,9 @@ package ledger
 //@   property C13
 //@   modifies ghost bigval
 //@   local realAward float64
-//@   loop 1 invariant decays_from_the_configured_award: 0 <= i && realAward == decayed(sel(bigval, award), gb.config.AwardDecay.Ratio, i)
+// (For a configured award that fits a signed 64-bit number: a larger one is truncated by
+// big.Int.Int64 - the same on every node, so no disagreement, but not the configured number.)
+//@   loop 1 invariant decays_from_the_configured_award: 0 <= i && (0 - 9223372036854775808 <= sel(bigval, award) && sel(bigval, award) <= 9223372036854775807 ==> realAward == decayed(sel(bigval, award), gb.config.AwardDecay.Ratio, i))
 //@   assumes is_the_prescribed_award: result != nil && sel(bigval, result) == awardAt(gb, blockHeight)
 //@   assumes other_numbers_untouched: forall r int :: r != result ==> sel(bigval, r) == sel(old(bigval), r)
 
